@@ -47,6 +47,15 @@ func runConc(c ConcCase) []ev.Violation {
 		rec.Inconclusive("setup: " + err.Error())
 		return nil
 	}
+	for i := range r.Raw {
+		r.Raw[i].DropBodies.Store(true) // the transcripts are not read here and would add up to gigabytes
+	}
+	defer func() {
+		for i := range r.Raw {
+			r.Raw[i].DropBodies.Store(false)
+			r.Raw[i].Reset()
+		}
+	}()
 	want := map[string][]byte{}
 	for i, n := range c.Sizes {
 		r.Raw[i].SetScript(backend.OK(200, [][2]string{{"Content-Type", c.CT}}, n, c.Framing, r.Raw[i].ID))
